@@ -147,9 +147,10 @@ class ABCARMPropertyGraph(ABCPropertyGraph):
                     continue
                 for atype in [DelegationType.LABEL, DelegationType.CAPACITY]:
                     prop_field_name = self.DELEGATION_TYPE_TO_PROP[atype]
-                    ds = None
-                    if delegations_by_node[node].get(atype, None) is not None:
-                        ds = delegations_by_node[node][atype].return_delegations_for_id(del_id)
+                    if delegations_by_node[node].get(atype, None) is None:
+                        # no delegations of this type on the node: nothing to rewrite or unset in the clone
+                        continue
+                    ds = delegations_by_node[node][atype].return_delegations_for_id(del_id)
                     # rewrite delegations
                     self._update_delegations_on_node(graph=delegations_info[del_id].graph, node_id=node,
                                                      prop_name=prop_field_name, prop_val=ds)
